@@ -860,6 +860,6 @@ pub fn budget(prop: &str, tier: Tier) -> u64 {
         ("C02", Tier::Quick) => 550 + 16_000,
         ("C02", Tier::Thorough) => 550 + 400_000,
         ("C03", Tier::Quick) => 16_000,
-        (_, _) => 400_000,
+        (_, _) => 150_000,
     }
 }
